@@ -324,10 +324,27 @@ def rule_shapes(ck, u, so, inv, head, tail, ds):
         bad = bad or 'put arms found: %s' % sorted(kinds)
     ck.verdict(bad is None, 'C19.d', 'octet_ring_put', cast.where(u.fn('octet_ring_put')),
                'full: dropped, or with override the oldest element is evicted first; element stored at data[head], head advances; first element sets tail to it' if bad is None else bad)
-    # clear
+    # clear: the ring becomes empty and stays the same ring in the same mode - tail' is the empty encoding, head' is any
+    # valid position (an empty ring has no content for head to refer to: leaving it or rewinding it are the same queue),
+    # storage, capacity and the override mode are what they were, no element is written
     ps = eng.paths('octet_ring_clear')
-    ok = all(sym.mem_read(p.mem, T) == D and sym.mem_read(p.mem, H) == H and not [e for e in p.stores() if e.name[0] == 'i'] for p in ps)
-    ck.verdict(ok, 'C19.d', 'octet_ring_clear', cast.where(u.fn('octet_ring_clear')), 'clear sets the empty encoding and nothing else' if ok else 'clear does not set tail = datasize only')
+    bad = None
+    for p in ps:
+        h2 = sym.mem_read(p.mem, H)
+        facts = eng.path_facts(p) + inv
+        if sym.mem_read(p.mem, T) != D:
+            bad = bad or "clear leaves tail' = %s, the empty encoding is tail == datasize" % fmt(sym.mem_read(p.mem, T))
+        if not (eng.entails(facts, lin.lt(L(h2), L(D))) and eng.entails(facts, -L(h2))):
+            bad = bad or "clear leaves head' = %s, not proved inside [0, datasize)" % fmt(h2)
+        if [e for e in p.stores() if e.name[0] == 'i']:
+            bad = bad or 'clear writes into the element array'
+        for f_, what in ((D, 'the capacity'), (DATA, 'the storage pointer'), (OV, 'the override mode')):
+            if sym.mem_read(p.mem, f_) != f_:
+                bad = bad or ("clear changes %s (%s' = %s): %s" % (what, fmt(f_), fmt(sym.mem_read(p.mem, f_)),
+                              'a ring switched to override mode is back in drop mode after clear, and a later put on a full ring is dropped instead of evicting the oldest element'
+                              if f_ == OV else 'the ring is no longer the one that was set up'))
+    ck.verdict(bad is None, 'C19.d', 'octet_ring_clear', cast.where(u.fn('octet_ring_clear')),
+               'clear sets the empty encoding; capacity, storage and override mode unchanged, no element written' if bad is None else bad)
     # size formula
     ps = eng.paths('octet_ring_size')
     bad = None
